@@ -614,6 +614,66 @@ def s_typegate(F, res):
     res.count("type-gated validators", n)
 
 
+def s_props(F, res):
+    """S-PROPS: the fields the analyzer puts in scope for `operand.field` are the ones the lowering can index.  The lowering
+    resolves a property with `Type::property_index`, which goes through `Type::properties()` (fields of single-case types and
+    of the built-in types only); the analyzer's `track_record_fields_for_type` - found by role: the function with a `&Type`
+    parameter that calls `track_record_field` - must take its fields from an iteration over that same `properties()` call.
+    Fields taken from the type definition's cases directly make `x.f` analyse cleanly for a multi-case variant, and the
+    lowering then fails with InvalidProperty."""
+    TY = "tx3_lang::ast::Type"
+    key = "tx3_lang::analyzing|property scope = Type::properties()"
+    fns = []
+    for p, f in F.fns.items():
+        if f["crate"] != "tx3_lang" or f.get("derived") or f["def_kind"] == "Closure" or not p.startswith("tx3_lang::analyzing::"):
+            continue
+        if not any(f["locals"][i] == "&" + TY for i in range(1, f.get("argc", 0) + 1)):
+            continue
+        if any((t.get("callee") or "").endswith("::track_record_field") for b in with_closures(F, f) for _, t in mir.calls(b)):
+            fns.append(f)
+    res.count("property-scope builders", len(fns))
+    if not fns:
+        res.add([assumption("S-PROPS", key, "crates/tx3-lang/src/analyzing.rs", "no function with a `&Type` parameter calls track_record_field: how property scopes are built is not decided")])
+        return
+    PASS = ("std::iter::IntoIterator::into_iter", "std::iter::Iterator::next", "core::slice::<impl [T]>::iter", "std::ops::Deref::deref", "std::ops::Try::branch",
+            "std::iter::Iterator::map", "std::iter::Iterator::enumerate", "std::vec::Vec::<T, A>::as_slice")
+    pi = F.fns.get(TY + "::property_index")
+    if pi is not None and not any((t.get("callee") or "").endswith("::properties") for b in with_closures(F, pi) for _, t in mir.calls(b)):
+        res.add([assumption("S-PROPS", key, where(pi), "Type::property_index no longer goes through Type::properties(): which accessor the lowering indexes with is not decided")])
+        return
+    for f in fns:
+        du = mir.DefUse(f)
+        bad = []
+        n = 0
+        for b in with_closures(F, f):
+            db = du if b is f else mir.DefUse(b)
+            for bi, t in mir.calls(b):
+                if not (t.get("callee") or "").endswith("::track_record_field") or len(t["args"]) < 2:
+                    continue
+                n += 1
+                org = mir.provenance(b, db, t["args"][1], transparent_extra=PASS)
+                srcs = []
+                for o in org:
+                    if o.kind == "agg" and o.rv.get("ops"):
+                        for op_ in o.rv["ops"]:
+                            srcs += mir.provenance(b, db, op_, transparent_extra=PASS + ("tx3_lang::ast::Identifier::new", "std::convert::AsRef::as_ref", "std::string::String::as_str"))
+                    elif o.kind == "call" and (o.callee or "").split("::")[-1] == "new" and o.term["args"]:
+                        for a_ in o.term["args"]:
+                            srcs += mir.provenance(b, db, a_, transparent_extra=PASS + ("tx3_lang::ast::Identifier::new", "std::convert::AsRef::as_ref", "std::string::String::as_str", "std::ops::Deref::deref"))
+                    else:
+                        srcs.append(o)
+                from_props = [x for x in srcs if x.kind == "call" and (x.callee or "").endswith("::properties")]
+                other = [x for x in srcs if not (x.kind == "call" and (x.callee or "").endswith("::properties")) and x.kind != "const"]
+                if not from_props or other:
+                    bad.append((b, t["line"], other))
+        k2 = "%s|property scope = Type::properties()" % f["path"]
+        if bad:
+            b, line, other = bad[0]
+            res.add([finding("S-PROPS", k2, where(b, line), "a field is put in scope for `operand.field` that does not come out of `Type::properties()` (%s): the analyzer accepts properties the lowering's `property_index` cannot resolve (the fields of a multi-case variant, say), so a clean program fails to lower with InvalidProperty" % (", ".join(sorted({repr(x)[:60] for x in other})) or "no properties() call feeds it"))])
+        else:
+            res.add([ok("S-PROPS", k2, where(f), "%d track_record_field call(s), each fed from an iteration over Type::properties()" % n)])
+
+
 def run(ctx):
     F = ctx.F
     res = Result("C13")
@@ -626,6 +686,8 @@ def run(ctx):
     t1_analyze(F, res)
     s_depth(F, res)
     facade(F, res)
+    res.rule("S-PROPS", "the fields the analyzer puts in scope for a typed operand are the ones Type::properties() / property_index expose to the lowering")
+    s_props(F, res)
     res.rule("S-TYPEGATE", "a validator that admits an expression by its target type rejects one that has none")
     s_typegate(F, res)
     return res
